@@ -16,6 +16,19 @@
 static void put(FILE *f, const char *k, const int_t *a, int n, int add)
 { int i; fprintf(f, ",\"%s\":[", k); for (i = 0; i < n; ++i) fprintf(f, "%s%ld", i ? "," : "", (long) a[i] + add); fprintf(f, "]"); }
 
+/* watchdog: an ordering that does not return is an outcome to report, not a reason for the check to stall */
+#include <signal.h>
+#include <unistd.h>
+static FILE *g_f; static int g_n, g_order, g_sym; static const char *g_pat; static long g_id;
+static void on_alarm(int sig)
+{
+    int i, j, first = 1; (void) sig;
+    fprintf(g_f, "{\"e\":\"Hang\",\"id\":%ld,\"n\":%d,\"order\":%d,\"sym\":%d,\"pat\":[", g_id, g_n, g_order, g_sym);
+    for (j = 0; j < g_n; ++j) for (i = 0; i < g_n; ++i) if (g_pat[i + j * g_n]) { fprintf(g_f, "%s[%d,%d]", first ? "" : ",", i + 1, j + 1); first = 0; }
+    fprintf(g_f, "]}\n"); fflush(g_f);
+    _exit(4);
+}
+
 static int one_case(FILE *f, int n, const char *pat, int order, int sym, long id)
 {
     int_t nnz = 0, i, j, *colptr = intMalloc(n + 1), *rowind, *perm_c = intMalloc(n + 1), *pc_in = intMalloc(n + 1), *view = intMalloc(n + 1);
@@ -27,6 +40,7 @@ static int one_case(FILE *f, int n, const char *pat, int order, int sym, long id
     colptr[n] = nnz;
     dCreate_CompCol_Matrix(&A, n, n, nnz, val, rowind, colptr, SLU_NC, SLU_D, SLU_GE);
     ck[0] = fnv(val, sizeof(double) * nnz); ck[1] = fnv(rowind, sizeof(int_t) * nnz); ck[2] = fnv(colptr, sizeof(int_t) * (n + 1));
+    g_f = f; g_n = n; g_order = order; g_sym = sym; g_pat = pat; g_id = id; signal(SIGALRM, on_alarm); alarm(20);
     if (order < 0) for (i = 0; i < n; ++i) perm_c[i] = i; else get_perm_c(order, &A, perm_c);
     for (i = 0; i < n; ++i) pc_in[i] = perm_c[i];
     memset(&o, 0, sizeof o);
@@ -54,6 +68,7 @@ static int one_case(FILE *f, int n, const char *pat, int order, int sym, long id
 	Destroy_CompCol_Permuted(&AC);
     }
     fprintf(f, ",\"valid\":%d}\n", ok);
+    alarm(0);
     SUPERLU_FREE(o.etree); SUPERLU_FREE(o.colcnt_h); SUPERLU_FREE(o.part_super_h);
     Destroy_CompCol_Matrix(&A); SUPERLU_FREE(perm_c); SUPERLU_FREE(pc_in); SUPERLU_FREE(view);
     return 0;
